@@ -843,7 +843,7 @@ def simulate_and_check(chk, precision, month, day, nday, param=SGP_PARAM, epw=SG
         chk.measurements.setdefault('custom_stock_runs', []).append({
             'stock': stock, 'start': [month, day], 'nday': nday,
             'buildings(type, era, frac, condtype, latWaste at the last step)': [
-                (b.bldtype, b.builtera, b.frac, b.building.condtype, b.building.latWaste) for b in model.BEM]})
+                (b.bldtype, b.builtera, b.frac, b.building.condtype, getattr(b.building, 'latWaste', None)) for b in model.BEM]})
         conds = sorted(set(b.building.condtype for b in model.BEM))
         want = sorted(set(c[2] for c in STOCKS[stock][1]) | ({'AIR'} if len(STOCKS[stock][0]) > len(STOCKS[stock][1]) else set()))
         if conds != want:
